@@ -248,6 +248,15 @@ async def run(ctx):
         check_direct(ctx, case)
         if i % 400 == 0:
             ctx.sample({"s": case["s"], "structurally_invalid": logic.structurally_invalid(ast), "why": sorted(classify(ast))}, cls="direct")
+    # ---- small scope, complete: EVERY expression of the domain with up to 3 (thorough: 4) leaves over {[1], [2], [501], [901], [902]}
+    idx = 0
+    for n in range(1, (3 if ctx.quick else 4) + 1):
+        for ast in G.enumerate_asts(n):
+            idx += 1
+            if ctx.mine(idx):
+                check_direct(ctx, {"ast": ast, "s": G.render(ast, rng, G.Style(p_redundant=0.0, flat_runs=0.0, spell=0, ws=""))})
+                ctx.count("small_scope_expressions")
+    ctx.note("small_scope", "every expression of the evaluation domain (valid and invalid) with up to %d leaves over 2 requirement keys, 1 hint, 2 format constraints, under all 3^k assignments" % (3 if ctx.quick else 4))
     for i in range(ctx.budget(140, 12_000)):
         case = gen_ahb_case(rng, max_keys=5)
         await check_ahb(ctx, case)
